@@ -246,6 +246,8 @@ func genTx(rt *rapid.T, i int, rules RulesSpec, blockTime int64, o genOpts) fixt
 		MaxFee:      rapid.SampledFrom([]uint64{0, 1, 1 << 40, ^uint64(0)}).Draw(rt, lbl+"maxfee"),
 		AuthCompute: rapid.SampledFrom([]uint64{0, 1, 5}).Draw(rt, lbl+"authcompute"),
 	}
+	// auth encodings around 128 bytes (where the length prefix inside the tx grows) and a long one
+	tx.AuthPad = rapid.SampledFrom([]int{0, 0, 0, 0, 35, 36, 37, 300}).Draw(rt, lbl+"authpad")
 	if rapid.IntRange(0, 3).Draw(rt, lbl+"sponsored") == 0 {
 		// a sponsored tx: the actions run for another address than the one that pays
 		ac := rapid.IntRange(0, nSponsors+1).Draw(rt, lbl+"actor")
